@@ -56,6 +56,8 @@ def _to_copy(op, t, dtype=None, device=None, **kwargs):
         # Before moving to another device type (or copying on the same one), convert back to a QBitsTensor:
         # the best subclass for the target device is selected again below
         t = t.qbits_tensor()
+    # (the packed data, the scale and the zero-point have their own shape: a memory format does not apply to them)
+    kwargs.pop("memory_format", None)
     scale = op(t._scale, dtype=dtype, device=device, **kwargs)
     data = op(t._data, device=device, **kwargs)
     zeropoint = op(t._zeropoint, device=device, **kwargs)
@@ -77,7 +79,8 @@ def clone(op, t, memory_format=torch.preserve_format):
     if type(t) != QBitsTensor:
         # An optimized subclass stores its scales and zero-points in its own format: convert it back first
         t = t.qbits_tensor()
-    data = op(t._data, memory_format=memory_format)
-    scale = op(t._scale, memory_format=memory_format)
-    zeropoint = op(t._zeropoint, memory_format=memory_format)
+    # (the packed data, the scale and the zero-point have their own shape: a memory format does not apply to them)
+    data = op(t._data)
+    scale = op(t._scale)
+    zeropoint = op(t._zeropoint)
     return QBitsTensor.create(t._qtype, t._axis, t._group_size, t.size(), t.stride(), data, scale, zeropoint)
